@@ -28,8 +28,14 @@ def strip_closures(path):
     return re.sub(r"(::\{closure#\d+\})+", "", path)
 
 
+# library functions that are tracked like string operations: where a number is rounded to its 3-decimal text
+PSEUDO_OPS = {"svgdx::types::fstr": "fstr()"}
+
+
 def is_str_op(c):
     last = c.path.split("::")[-1]
+    if "<impl char>" in c.path and last.startswith("is_"):
+        return True  # character classes decide where a name / number / token ends
     if last not in STR_OPS:
         return False
     p = c.path.lower()
@@ -48,8 +54,8 @@ def survey(prog):
     for b in lib:
         f = strip_closures(b.path)
         for (bb, t, c) in b.call_sites(lambda c: True):
-            if is_str_op(c):
-                k = (f, c.path.split("::")[-1])
+            if is_str_op(c) or c.path in PSEUDO_OPS:
+                k = (f, PSEUDO_OPS.get(c.path, c.path.split("::")[-1]))
                 cnt[k] += 1
                 where.setdefault(k, b.where(bb, t.get("line")))
             else:
@@ -127,7 +133,7 @@ def renames(prog, edges=None, funcs=None):
     return mapping
 
 
-def check(prog, chk, prefixes, what):
+def check(prog, chk, prefixes, what, ops=None, rule="A14.str-ops"):
     table, known = load_table()
     cnt, where, edges, funcs = survey(prog)
     ren = renames(prog, edges, funcs)
@@ -151,6 +157,8 @@ def check(prog, chk, prefixes, what):
             want[op] += n
     n_ob = 0
     for op in sorted(set(have) | set(want)):
+        if (ops is not None and op not in ops) or (ops is None and op in PSEUDO_OPS.values()):
+            continue
         n_ob += 1
         diff = []
         loc = "-"
@@ -165,14 +173,14 @@ def check(prog, chk, prefixes, what):
                 loc = where.get((cur, op), loc)
         chk.ob(
             have[op] == want[op],
-            "A14.str-ops",
+            rule,
             op,
             loc,
-            f"str::{op}() is applied {want[op]} time(s) in the functions that handle {what}, as in the reviewed inventory",
-            f"str::{op}() is now applied {have[op]} time(s) in the functions that handle {what} (reviewed inventory: {want[op]}; {'; '.join(diff)}): the way {what} is cut up, matched or cleaned has changed - characters can be dropped, altered or attributed to the wrong token. Review, then regenerate policy/tables/str_ops.json (tools/gen_str_ops.py) if intended.",
+            f"{'' if op.endswith('()') else 'str::'}{op}{'' if op.endswith('()') else '()'} is applied {want[op]} time(s) in the functions that handle {what}, as in the reviewed inventory",
+            f"{'' if op.endswith('()') else 'str::'}{op}{'' if op.endswith('()') else '()'} is now applied {have[op]} time(s) in the functions that handle {what} (reviewed inventory: {want[op]}; {'; '.join(diff)}): the way {what} is cut up, matched, cleaned or rounded has changed - characters can be dropped, altered or attributed to the wrong token, digits lost before they are used. Review, then regenerate policy/tables/str_ops.json (tools/gen_str_ops.py) if intended.",
             by="table",
         )
-    chk.floor("A14.str-ops", sum(want.values()), 1, f"string operation in the reviewed inventory for {what}")
+    chk.floor(rule, sum(v for o, v in want.items() if (ops is None and o not in PSEUDO_OPS.values()) or (ops is not None and o in ops)), 1, f"operation in the reviewed inventory for {what}")
     return n_ob
 
 
@@ -187,6 +195,7 @@ SCOPES = {
     "C11": ([S + "element::SvgElement::eval_size_attr", S + "element::SvgElement::pos_attr_helper", S + "position::parse_el_scalar", S + "<position::Length", S + "types::strp", S + "types::fstr"], "a size / position shorthand"),
     "C12": ([S + "<bearing::", S + "bearing::", S + "<path::", S + "path::", S + "element::SvgElement::bbox_raw"], "path / element geometry text"),
     "C14": ([S + "expression::", S + "functions::", S + "types::fstr"], "an expression"),
+    "C15": ([S + "expression::eval_vars", S + "expression::valid_variable_name", S + "expression::valid_symbol", S + "<context::TransformerContext as context::VariableMap>"], "a variable reference"),
     "C19": ([S + "text::", S + "element::SvgElement::eval_text_anchor"], "text content or its placement attributes"),
     "C20": ([S + "themes::", S + "types::ClassList"], "a class name"),
 }
@@ -195,3 +204,10 @@ SCOPES = {
 def check_for(prog, chk, pid):
     pre, what = SCOPES[pid]
     return check(prog, chk, pre, what)
+
+
+def check_number_formatting(prog, chk):
+    """fstr() rounds a number to its 3-decimal text: it belongs where a value is written into the *output* geometry.
+    The places that call it are a reviewed inventory over the whole library - a new call in the middle of the pipeline
+    (e.g. writing an evaluated attribute back through fstr) rounds before the constraint arithmetic instead of after."""
+    return check(prog, chk, [S, "<" + S], "a number on its way to the output (3-decimal rounding)", ops={"fstr()"}, rule="A14.number-formatting")
